@@ -186,7 +186,11 @@ _RE_STATES = re.compile(r"(\d+) states generated, (\d+) distinct states found, (
 
 def run_tlc(stage, module, cfg, workers=1, timeout=600, extra=(), env=None, xmx="3g", metadir=None):
     md = metadir or os.path.join(stage, "md-" + hashlib.sha1((module + cfg + str(time.time())).encode()).hexdigest()[:8])
-    e = dict(os.environ, JAVA_TOOL_OPTIONS=JAVA_OPTS)
+    # TLC/SANY unpack their standard modules into a fresh directory under java.io.tmpdir at every start and leave it
+    # there: keep that next to the run's metadir and remove it with it (thousands of runs would litter /tmp)
+    jtmp = md + "-jtmp"
+    os.makedirs(jtmp, exist_ok=True)
+    e = dict(os.environ, JAVA_TOOL_OPTIONS=JAVA_OPTS + " -Djava.io.tmpdir=" + jtmp)
     if env:
         e.update(env)
     cmd = _tlc_cmd(module, cfg, workers, list(extra) + ["-metadir", md], xmx)
@@ -198,6 +202,7 @@ def run_tlc(stage, module, cfg, workers=1, timeout=600, extra=(), env=None, xmx=
         out = ex.stdout.decode() if isinstance(ex.stdout, bytes) else (ex.stdout or "")
         rc, timed_out = -1, True
     shutil.rmtree(md, ignore_errors=True)
+    shutil.rmtree(jtmp, ignore_errors=True)
     m = None
     for m in _RE_STATES.finditer(out):
         pass
